@@ -275,6 +275,8 @@ class BuiltinMixin:
         return [(p, VNone())]
 
     def bi_callable(self, p, args, kwargs, node):
+        if isinstance(args[0], VOpaque):
+            return [(p, VBool(z3.Bool(fresh_name("callable"))))]        # unknown object: either answer
         return [(p, VBool(isinstance(args[0], (VFunc, VClass))))]
 
     def bi_frozenset(self, p, args, kwargs, node):
